@@ -52,6 +52,10 @@ the end of the input, a fixed number of bytes or room in its output pipe; every 
 is guarded (``WATCHDOG_S``): when it expires the program leaves a ``<name>.stuck`` note in
 the capture directory and exits, so that a bridge that blocks shows up as a finding of
 the check and not as a hanging run.
+
+A *gated* program (``Sandbox.install_gated``, ``Stage``; see the section at the end) serves calls that overlap in
+one process: it reports where it is through a FIFO and waits at gates the harness opens, so that the harness
+chooses the interleaving; it answers for the formula it actually received.
 """
 import os
 import random
@@ -1123,3 +1127,314 @@ class Sandbox:
                 shutil.rmtree(p, ignore_errors=True)
             else:
                 os.unlink(p)
+
+
+# ---------------------------------------------------------------------------
+# gated programs: overlapping calls in one process, interleaved in an order the harness owns
+#
+# A *gated* program (``Sandbox.install_gated``) is a Python program that serves several calls that are in flight at
+# the same time.  Every call names itself with the option ``--tag=K`` of its command line.  The program
+#   * reports ``K started`` (before it touches its input), ``K read`` (the input - file argument or standard input -
+#     was read to the end and saved as ``<cap>/run.K.<pid>.in``) and ``K done`` (answer written) as lines written to
+#     the FIFO ``<cap>/events``;
+#   * waits, when the plan of call K has the gate 'start' (before the input is opened) or 'answer' (after the input
+#     was read, before the answer is written), until the harness puts a byte into the FIFO ``<cap>/gate.K.<gate>``;
+#     the wait is a select() guarded by WATCHDOG_S, after which the program leaves a ``stuck`` note and exits;
+#   * answers for the formula it RECEIVED: the harness prepares the truthful answer of every formula of the case
+#     under ``formula_key`` (a hash of the variable count and the clause set); a text that is none of them gets no
+#     answer (and a ``problems`` note).
+# ``Stage`` is the harness side: it owns the FIFOs, waits for events (select, no polling, no clock beyond the
+# guard) and opens gates.
+
+def formula_key(n, clauses):
+    import hashlib
+    clauses = sorted(sorted(int(l) for l in c) for c in clauses)
+    text = str(int(n)) + '|' + str(len(clauses)) + '|' + ';'.join(' '.join(str(l) for l in c) for c in clauses)
+    return hashlib.sha1(text.encode('ascii')).hexdigest()[:16]
+
+
+_GATED = r"""#!{python} -SE
+# scripted SAT solver (vlib/fakesolver.py: gated_program)
+import os, sys, select, hashlib
+ME = os.path.basename(sys.argv[0])
+CAP = {cap!r}
+D = {data!r}
+BEH = {behaviour!r}
+GATES = {gates!r}
+WATCHDOG = {watchdog!r}
+
+args = sys.argv[1:]
+for a in args:
+    if a in ('--help', '-h', '-help', '--version', '-version', '-V'):
+        sys.exit(0)
+tag = 'none'
+inp = out = None
+for a in args:
+    if a.startswith('--tag='):
+        tag = a[6:]
+    elif a.startswith('-'):
+        continue
+    elif inp is None:
+        inp = a
+    elif out is None:
+        out = a
+RUN = os.path.join(CAP, 'run.%s.%d' % (tag, os.getpid()))
+with open(RUN + '.args', 'w') as f:
+    f.write(ME + '\n')
+    for a in args:
+        f.write(a + '\n')
+
+
+def note(kind, text):
+    with open(RUN + '.' + kind, 'a') as f:
+        f.write(text + '\n')
+
+
+def event(kind):
+    fd = os.open(os.path.join(CAP, 'events'), os.O_WRONLY)
+    os.write(fd, ('%s %s\n' % (tag, kind)).encode('ascii'))
+    os.close(fd)
+
+
+def stuck(text):
+    note('stuck', text)
+    os._exit(3)
+
+
+def gate(kind):
+    if kind not in GATES.get(tag, ()):
+        return
+    fd = os.open(os.path.join(CAP, 'gate.%s.%s' % (tag, kind)), os.O_RDONLY | os.O_NONBLOCK)
+    r, _, _ = select.select([fd], [], [], WATCHDOG)
+    if not r:
+        stuck('gate %s of call %s was never opened' % (kind, tag))
+    os.read(fd, 1)
+    os.close(fd)
+
+
+if BEH == 'filereq' and inp is None:
+    print('usage: ' + ME + ' [options] FILE')
+    note('problems', 'no input file on the command line')
+    event('started'); event('read'); event('done')
+    sys.exit(1)
+event('started')
+gate('start')
+got = bytearray()
+try:
+    fd = os.open(inp, os.O_RDONLY) if inp is not None else 0
+except OSError as e:
+    note('problems', 'cannot open the input file: %s' % e.__class__.__name__)
+    event('read'); event('done')
+    os._exit(3)
+while True:
+    r, _, _ = select.select([fd], [], [], WATCHDOG)
+    if not r:
+        stuck('waiting for input: neither a byte nor the end of the input arrived (%d bytes so far)' % len(got))
+    b = os.read(fd, 65536)
+    if not b:
+        break
+    got.extend(b)
+with open(RUN + '.in', 'wb') as f:
+    f.write(got)
+
+
+def key_of(data):
+    try:
+        n = None
+        nums = []
+        for line in data.decode('ascii').split('\n'):
+            s = line.strip()
+            if not s or s[0] == 'c':
+                continue
+            if s[0] == 'p':
+                n = int(s.split()[2])
+                continue
+            nums.extend(int(t) for t in s.split())
+        if n is None:
+            return None
+        clauses, cur = [], []
+        for x in nums:
+            if x == 0:
+                clauses.append(sorted(cur))
+                cur = []
+            else:
+                cur.append(x)
+        if cur:
+            return None
+        text = str(n) + '|' + str(len(clauses)) + '|' + ';'.join(' '.join(str(l) for l in c) for c in sorted(clauses))
+        return hashlib.sha1(text.encode('ascii')).hexdigest()[:16]
+    except Exception:
+        return None
+
+
+KEY = key_of(bytes(got))
+event('read')
+gate('answer')
+base = os.path.join(D, str(KEY))
+if KEY is None or not os.path.exists(base + '.stdout'):
+    note('problems', 'the text received is none of the formulas of the case')
+    os.write(1, b'c formula not recognised\n')
+    event('done')
+    os._exit(1)
+with open(base + '.stdout', 'rb') as f:
+    STDOUT = f.read()
+if out is not None and os.path.exists(base + '.result'):
+    with open(base + '.result', 'rb') as f:
+        RESULT = f.read()
+    with open(out, 'wb') as f:
+        f.write(RESULT)
+view = memoryview(STDOUT)
+while len(view):
+    view = view[os.write(1, view):]
+with open(base + '.exit') as f:
+    status = int(f.read())
+event('done')
+os._exit(status)
+"""
+
+
+def gated_program(behaviour, capdir, datadir, gates):
+    return _GATED.format(python=os.path.realpath(sys.executable), cap=capdir, data=datadir, behaviour=behaviour,
+                         gates=dict((str(k), list(v)) for k, v in gates.items()), watchdog=float(WATCHDOG_S))
+
+
+def _install_gated(self, name, behaviour, gates, answers, where=0):
+    """Put a gated program called `name` in a PATH directory.  gates: {tag: ['start', 'answer']};
+    answers: {formula_key: (stdout bytes, result bytes or None, exit status)}."""
+    dest = os.path.join(self.bins[where], name)
+    if os.path.lexists(dest):
+        os.unlink(dest)
+    datadir = os.path.join(self.root, 'gated-{}-{}.d'.format(where, name))
+    if not os.path.isdir(datadir):
+        os.mkdir(datadir)
+    for key, (out, res, status) in answers.items():
+        with open(os.path.join(datadir, key + '.stdout'), 'wb') as f:
+            f.write(out)
+        if res is not None:
+            with open(os.path.join(datadir, key + '.result'), 'wb') as f:
+                f.write(res)
+        with open(os.path.join(datadir, key + '.exit'), 'w') as f:
+            f.write(str(int(status)))
+    with open(dest, 'w') as f:
+        f.write(gated_program(behaviour, self.cap, datadir, gates))
+    os.chmod(dest, 0o755)
+
+
+Sandbox.install_gated = _install_gated
+
+
+class Stage:
+    """Harness side of the gated programs of one sandbox: events in, gates out.  Use as a context manager."""
+    EVENTS = ('started', 'read', 'done', 'returned')
+    GATES = ('start', 'answer')
+
+    def __init__(self, sb, gates, guard_s=30.0):
+        self.cap = sb.cap
+        self.gates = dict((str(k), list(v)) for k, v in gates.items())
+        self.guard_s = float(guard_s)
+        self.seen = []              # (tag, event) in order of arrival
+        self.missed = []            # (tag, event) waited for in vain
+        self._buf = b''
+        self._ev = None
+        self._gate_fds = {}
+        self._released = []
+
+    def __enter__(self):
+        p = os.path.join(self.cap, 'events')
+        os.mkfifo(p)
+        self._ev = os.open(p, os.O_RDWR | os.O_NONBLOCK)
+        for tag, kinds in self.gates.items():
+            for kind in kinds:
+                if kind not in self.GATES:
+                    raise ValueError(kind)
+                g = os.path.join(self.cap, 'gate.{}.{}'.format(tag, kind))
+                os.mkfifo(g)
+                self._gate_fds[(tag, kind)] = os.open(g, os.O_RDWR | os.O_NONBLOCK)
+        return self
+
+    def __exit__(self, *exc):
+        for fd in list(self._gate_fds.values()) + self._released + ([self._ev] if self._ev is not None else []):
+            try:
+                os.close(fd)
+            except OSError:
+                pass
+        self._gate_fds = {}
+        self._released = []
+        self._ev = None
+        return False
+
+    def post(self, tag, event):
+        """An event of the harness' own threads (a call returned)."""
+        os.write(self._ev, '{} {}\n'.format(tag, event).encode('ascii'))
+
+    def release(self, tag, kind):
+        fd = self._gate_fds.pop((str(tag), kind), None)
+        if fd is None:
+            return False
+        os.write(fd, b'g')
+        self._released.append(fd)         # kept open: the byte waits in the FIFO until the program takes it
+        return True
+
+    def release_all(self):
+        for (tag, kind) in list(self._gate_fds):
+            self.release(tag, kind)
+
+    def _pump(self, timeout):
+        import select
+        r, _, _ = select.select([self._ev], [], [], timeout)
+        if not r:
+            return False
+        try:
+            self._buf += os.read(self._ev, 65536)
+        except BlockingIOError:
+            return True
+        while b'\n' in self._buf:
+            line, self._buf = self._buf.split(b'\n', 1)
+            parts = line.decode('ascii', 'replace').split()
+            if len(parts) == 2:
+                self.seen.append((parts[0], parts[1]))
+        return True
+
+    def wait(self, tag, event):
+        """True when the event arrived; False when it cannot arrive any more (the call returned without it) or did
+        not arrive within the guard (recorded in self.missed)."""
+        import time
+        tag = str(tag)
+        deadline = time.monotonic() + self.guard_s
+        while True:
+            if (tag, event) in self.seen:
+                return True
+            if event != 'returned' and (tag, 'returned') in self.seen:
+                self.missed.append((tag, event, 'the call returned without it'))
+                return False
+            left = deadline - time.monotonic()
+            if left <= 0 or not self._pump(left):
+                self.missed.append((tag, event, 'not within {:.0f} s'.format(self.guard_s)))
+                return False
+
+    def drain(self):
+        while self._pump(0):
+            pass
+
+    def runs(self):
+        """What the gated programs recorded: list of dicts {tag, pid, name, args, input, stuck, problems}."""
+        out = []
+        names = sorted(fn for fn in os.listdir(self.cap) if fn.startswith('run.') and fn.endswith('.args'))
+        for fn in names:
+            stem = fn[:-len('.args')]
+            rec = {'tag': stem[len('run.'):stem.rfind('.')], 'pid': stem[stem.rfind('.') + 1:], 'input': None,
+                   'stuck': None, 'problems': None}
+            with open(os.path.join(self.cap, fn)) as f:
+                lines = f.read().split('\n')[:-1]
+            rec['name'], rec['args'] = lines[0], lines[1:]
+            pi = os.path.join(self.cap, stem + '.in')
+            if os.path.exists(pi):
+                with open(pi, 'rb') as f:
+                    rec['input'] = f.read()
+            for extra in ('stuck', 'problems'):
+                pe = os.path.join(self.cap, stem + '.' + extra)
+                if os.path.exists(pe):
+                    with open(pe) as f:
+                        rec[extra] = f.read().split('\n')[:-1]
+            out.append(rec)
+        return out
